@@ -74,8 +74,8 @@ class Mon:
         self.max_chain_kinds: tuple[str, ...] = ()
         self.cross_partial = False  # some nest with >= 2 real loops crosses a partial boundary
         self.max_partial_depth = 0
-        self._partial_depth = 0
         self.max_copy_depth = 0
+        self.max_engine_stack = 0  # Python frames that are not the monitor's, at the deepest partial
         self.loop_over: dict[str, Any] | None = None  # first body execution beyond the loop limit
         # output
         self.bufs: dict[int, BufRec] = {}
@@ -110,9 +110,6 @@ class Mon:
         f = Frame(kind, (tok.source, tok.start), body, st[-1] if st else None)
         if kind in PARTIAL_KINDS:
             f.mode = "for" if getattr(node, "loop", False) or (kind == "include" and node.var is not None) else ""
-            self._partial_depth += 1
-            if self._partial_depth > self.max_partial_depth:
-                self.max_partial_depth = self._partial_depth
         if not st:
             f.chain_counts = {}
         st.append(f)
@@ -122,8 +119,6 @@ class Mon:
         st = self.stack
         assert st and st[-1] is f
         st.pop()
-        if f.kind in PARTIAL_KINDS:
-            self._partial_depth -= 1
         if f.parent is not None:
             f.parent.children.append(f)
         else:
@@ -167,6 +162,16 @@ class Mon:
                 rec.allow = self.limits.get("out")
         st = self.stack
         if st and st[-1].kind in PARTIAL_KINDS:
+            # a partial template is actually entered (the context copy / extension was allowed)
+            d = 0
+            for fr in st:
+                if fr.kind in PARTIAL_KINDS:
+                    d += 1
+            if d > self.max_partial_depth:
+                self.max_partial_depth = d
+                e = _engine_frames()
+                if e > self.max_engine_stack:
+                    self.max_engine_stack = e
             self.body_exec(st[-1], buf, None)
 
     # ---------------------------------------------------------------- post-hoc loop facts
@@ -263,6 +268,22 @@ class Mon:
         if L is not None and sz > L and self.ns_over is None:
             self.ns_over = {"size": sz, "limit": L, "engine_size": ctx.get_size_of_locals(),
                             "depth": _ctx_depth(ctx)}
+
+
+_THIS = __file__
+
+
+def _engine_frames() -> int:
+    """Frames on the Python stack that belong to liquid2 (the monitor's own wrapper
+    frames and the harness below the render call are not counted)."""
+    f = sys._getframe(1)
+    n = 0
+    while f is not None:
+        fn = f.f_code.co_filename
+        if fn is not _THIS and "liquid2" in fn:
+            n += 1
+        f = f.f_back
+    return n
 
 
 def own_size(ctx: Any) -> int:
